@@ -15,12 +15,12 @@ CHECKS = {
    technique="guard-table discharge of bounds obligations over go/ssa with feasible-path facts, call-closure panic reachability, nil-test dominance",
    ref="DESIGN.md section 5 C15"),
  "C09": dict(
-   text="Structural necessary conditions for weight/ownership/root following content, decided on every path of insert, delete, getBlockProof and markToCollect: a collapsed position is resolved before it is interpreted as another kind or as empty; the weight change of the recursive descent is folded into the branch weight and returned; every store to a hashed field is accompanied by dirty=true; the weight-ordered descent enters a child only under block <= child weight and subtracts skipped weights. Further: the single-child scan of delete keeps its sentinels outside the slot range and its decision accepts exactly the slot numbers (DOM-sentinel). The subtree returned by every recursive insert/delete is linked back or returned (DEP-linkback); an update in place replaces bytes and weight together and its nothing-changed shortcut compares both (AGREE-update); error discipline (ERR-guard, ERR-dropped).",
+   text="Structural necessary conditions for weight/ownership/root following content, decided on every path of insert, delete, getBlockProof and markToCollect: a collapsed position is resolved before it is interpreted as another kind or as empty; the weight change of the recursive descent is folded into the branch weight and returned; every store to a hashed field is accompanied by dirty=true; the weight-ordered descent enters a child only under block <= child weight and subtracts skipped weights. Further: the single-child scan of delete keeps its sentinels outside the slot range and its decision accepts exactly the slot numbers (DOM-sentinel). The subtree returned by every recursive insert/delete is linked back or returned (DEP-linkback); an update in place replaces bytes and weight together and its nothing-changed shortcut compares both (AGREE-update); error discipline (ERR-guard, ERR-dropped). CalcHash memoises soundly (DOM-memo); one byte order throughout (AGREE-endian).",
    note="Does not decide the numeric equalities themselves (total weight, ownership interval, root equality with an independent computation).",
    technique="type-test exhaustiveness with an assumed-kind CFG walk, data-dependence and dominance checks on go/ssa",
    ref="DESIGN.md section 5 C09"),
  "C10": dict(
-   text="What the verifier recomputes and what it trusts, decided structurally: every success arm stores the verified child, sets dirty and recomputes the hash before returning, and VerifyBlockProof returns that recomputed hash; range checks guard every success; and 'navigated-by is a subset of committed-to' is checked per node kind. Two known findings: the branch hash binds only the sum of child weights while the verifier navigates by each claimed weight (forgeable, witness recorded); node kinds are not domain-separated in the hash pre-image. Further: serialisation (proof construction) reads cached hashes only after the node tested clean or was re-hashed (ORDER-hashfresh).",
+   text="What the verifier recomputes and what it trusts, decided structurally: every success arm stores the verified child, sets dirty and recomputes the hash before returning, and VerifyBlockProof returns that recomputed hash; range checks guard every success; and 'navigated-by is a subset of committed-to' is checked per node kind. Two known findings: the branch hash binds only the sum of child weights while the verifier navigates by each claimed weight (forgeable, witness recorded); node kinds are not domain-separated in the hash pre-image. Further: serialisation (proof construction) reads cached hashes only after the node tested clean or was re-hashed (ORDER-hashfresh). The prover emits every node it walks (DOM-proofappend); serialised fields = deserialised fields (AGREE-persist); one byte order (AGREE-endian).",
    note="Does not decide absence of other forgeries (a statement over all byte strings).",
    technique="ordering/dominance checks, range-guard facts, pre-image vs decision-input agreement on go/ssa",
    ref="DESIGN.md section 5 C10"),
@@ -30,7 +30,7 @@ CHECKS = {
    technique="must-pass-through, call-graph effect confinement, provenance dataflow of deleted keys, field-set agreement on go/ssa",
    ref="DESIGN.md section 5 C11"),
  "C12": dict(
-   text="Thin structural check of the path export: every path through GetPath marks the requested keys (parallel or sequential loop) before assembling the export, for every root kind; writer and reader of the embedded shared-prefix child agree on field order, offsets and byte order; export and import walk in the same pre-order; markToCollect resolves collapsed positions. Further: every node on a requested key's path is marked for export also when the key is absent below it (DOM-marked); a storage-less trie keeps unresolved references instead of failing (DOM-nodb); exported nodes carry fresh hashes (ORDER-hashfresh).",
+   text="Thin structural check of the path export: every path through GetPath marks the requested keys (parallel or sequential loop) before assembling the export, for every root kind; writer and reader of the embedded shared-prefix child agree on field order, offsets and byte order; export and import walk in the same pre-order; markToCollect resolves collapsed positions. Further: every node on a requested key's path is marked for export also when the key is absent below it (DOM-marked); a storage-less trie keeps unresolved references instead of failing (DOM-nodb); exported nodes carry fresh hashes (ORDER-hashfresh). The importer links each decoded subtree only under a matching parent hash and re-checks the root hash (DOM-childhash); AGREE-persist.",
    note="Does not decide root/weight equality after mirrored updates. Import-side hash checks are deliberately not armed (not necessary for honest exports).",
    technique="path-avoidance feasibility check, writer/reader layout agreement on go/ssa",
    ref="DESIGN.md section 5 C12"),
